@@ -74,6 +74,27 @@ CHECKS = {
         "Trusts vf/ref R5 + dens algebra; Hessian sign convention = documented expanded formula (+dF_j/dr_k).",
         "DESIGN.md 6/C15",
     ),
+    "C03": (
+        "property-based differential testing: generated bases and point charges per enumerated (l_a,l_b) cell vs an "
+        "independent McMurchie-Davidson oracle with a 40-digit arbiter",
+        "Generated-input search: 36 l-pairs enumerated, charges on centres / midpoint / near / far with either sign; "
+        "per-charge arrays compared at 1e-8*sqrt(|V_aa V_bb|), both block orientations (internal swap), and the "
+        "nuclear-attraction matrix against the sum over charges.",
+        "Trusts vf/ref R2 (selftest: Gaussian-transform quadrature, mpmath, HORTON). Float-oracle deviations are "
+        "re-judged at 40 digits before they count.",
+        "DESIGN.md 6/C03",
+    ),
+    "C04": (
+        "property-based differential testing: exhaustive l-quartet enumeration with generated geometry/exponents, "
+        "whole-basis calls, and a fixed keyed list of ill-conditioned quartets, vs McMurchie-Davidson oracle",
+        "Generated-input search: all 256 (l1..l4) in 0..3 at block level, whole-basis chemist/physicist/transform calls "
+        "with mixed coordinate types, and 251 realistic tight-core/diffuse quartets in both orientations; judged at "
+        "1e-6 of the oracle Schwarz scale with a 40-digit arbiter.",
+        "Trusts vf/ref R2. Random part limited to exponents 0.1-10 (0.2-5 with f); ill-conditioned region decided on "
+        "the fixed list only. Absolute floor 1e-30 for pairs whose overlap distribution underflows. Found and repaired "
+        "D11 (bra/ket orientation).",
+        "DESIGN.md 6/C04",
+    ),
 }
 
 NOT_YET = "check not built yet in this revision (planned, see DESIGN.md section 6)"
